@@ -1021,11 +1021,89 @@ class C41Macros(Oracle):
                            f"({n_calls} Call macro lines in the method): the call recursed instead of failing")
                     return
 
+    def _cycle_closed_by_redefinition(self, w):
+        """Top-level calls in document order against the definitions in force at each call: a call whose macro reaches
+        itself under those definitions must fail before any line of that macro runs - so a body line that precedes the
+        macro's first nested call runs exactly as often as the calls executed before that point expand to."""
+        tops = [n for n in self.tree.children if not n.is_ws]
+        if any(n.kind not in ("Macro", "Call macro", "Mark", "Wait", "Base") or n.threshold is not None for n in tops):
+            return
+        defs: dict[str, model.MNode] = {}
+        execs: dict[str, int] = {}
+
+        def callees(m):
+            return [c for c in m.walk() if c.kind == "Call macro"]
+
+        def reaches(a, b, seen=()):
+            m = defs.get(a)
+            if m is None:
+                return False
+            for c in callees(m):
+                if c.arg == b or (c.arg not in seen and reaches(c.arg, b, seen + (c.arg,))):
+                    return True
+            return False
+
+        def expand(name, depth=0):
+            m = defs.get(name)
+            if m is None or depth > 6:
+                return
+            execs[m.id] = execs.get(m.id, 0) + 1
+            for c in callees(m):
+                expand(c.arg, depth + 1)
+        cyclic_call = None
+        for n in tops:
+            if n.kind == "Macro":
+                defs[n.arg] = n
+            elif n.kind == "Call macro":
+                if n.arg not in defs:
+                    return
+                if reaches(n.arg, n.arg):
+                    cyclic_call = n
+                    break
+                if any(reaches(c.arg, c.arg) for c in callees(defs[n.arg])):
+                    return          # a nested call closes a cycle: where the run stops is not this oracle's business
+                expand(n.arg)
+        if cyclic_call is None:
+            return
+        count: dict[str, int] = {}
+        for e in w.effects:
+            if e[1] == "mark":
+                count[e[2]] = count.get(e[2], 0) + 1
+        for m in defs.values():
+            for c in m.children:
+                if c.kind == "Call macro" or c.children:
+                    break
+                if c.kind == "Mark" and count.get(c.arg, 0) > execs.get(m.id, 0):
+                    # shape of the cycle: is every call on it the first call among the direct children of its macro
+                    # (what the engine's up-front check follows), a later direct child, or nested in a block of the body
+                    def shape():
+                        worst = "first_direct_child"
+                        for mm in defs.values():
+                            if not reaches(mm.arg, cyclic_call.arg) and mm.arg != cyclic_call.arg:
+                                continue
+                            direct = [x for x in mm.children if x.kind == "Call macro"]
+                            for x in callees(mm):
+                                if x.arg != cyclic_call.arg and not reaches(x.arg, cyclic_call.arg):
+                                    continue
+                                if x not in direct:
+                                    return "nested"
+                                if direct and x is not direct[0]:
+                                    worst = "direct_child_not_first"
+                        return worst
+                    self.v("C41", "C41.cyclic_call_ran_body", shape(),
+                           f"{cyclic_call.text.strip()!r} ({cyclic_call.id}) closes a call cycle under the definitions in force "
+                           f"(a later redefinition made {cyclic_call.arg} reach itself); {c.text.strip()!r} of macro {m.arg} ran "
+                           f"{count[c.arg]} times, the calls before it account for {execs.get(m.id, 0)}")
+                    return
+        self.res.probe("cycle_closed_by_redefinition_checked")
+
     def at_end(self, w):
         for e in w.exceptions:
             if "RecursionError" in e[2]:
                 self.v("C41", "C41.recursion_error_escaped", "tick", e[2])
         self._recursion_check(w)
+        if not any(r[1] in ("edit", "inject", "cancel", "force") for r in w.requests[1:]):
+            self._cycle_closed_by_redefinition(w)
         if not self.enabled:
             return
         # main-path macro calls in the fragment without interrupts: body tokens appear once per call, in order
